@@ -289,12 +289,15 @@ PROPS = {
              "onto names holding a complete older file, onto names used earlier in the scenario; destruction with and without buffered data) x EVERY crash point k = 1..N, where the process is killed "
              "(_exit) immediately before its k-th write/writev/rename (interposed in the harness, counted by a fault-free reference run in a forked child). Oracle: every directory entry not ending "
              "in .part is byte-identical to the pre-existing file of that name or to a completed output of that name (snapshots of the reference run, each validated as a complete stream + valid document). "
-             "Non-trivial: scenario with N > 1 and a rotation or compression; exhaustive over k per scenario.",
+             "Non-trivial: scenario with N > 1 and a rotation or compression; exhaustive over k per scenario. Without a crash (hist_c15align, exhaustive): a scripted history on a named output whose first "
+             "record carries a string of every length 0..2250 x 8 record endings (strings, 9-/5-/3-/2-byte integers last), so that the end of the last block and the closing break fall on every position of the "
+             "encoder buffer: every file found under a final name is one complete valid document.",
         level_text="exhaustive enumeration of crash points (system-call granularity) for each generated scenario; fork per point",
         level_note="crash = process death between system calls as the property defines it; says nothing about un-synced data after power loss; outputs are deterministic across forked children",
         technique="property-based testing with fault injection: generated scenarios x exhaustive crash-point enumeration",
         assumptions=["write/writev/rename are the only output-related system calls of the library (ofstream uses writev, Writer<int> uses write, std::rename uses rename)"],
-        jobs=[dict(harness="crash", prop="c15_crash", cases=(1600, 48000), size=(30, 60))],
+        jobs=[dict(harness="crash", prop="c15_crash", cases=(1600, 48000), size=(30, 60)),
+              dict(harness="hist", prop="hist_c15align", kind="enum")],
     ),
     "C16": dict(
         level="fault_enumeration",
